@@ -154,7 +154,9 @@ def gen_queue_world(rng: random.Random, n_steps: int) -> Dict[str, Any]:
     vehicles = []
     for k, vid in enumerate(ids):
         c = c0 if k < 2 or rng.random() < 0.4 else rng.choice(near)
-        vehicles.append({"id": vid, "lat": c[0], "lon": c[1], "mech": "leaf_50", "soc": rng.choice([0.3, 0.6, 0.9, 0.999, 1.0, 1.0])})
+        # some vehicles barely make it to the station and run flat while waiting in the queue
+        soc = rng.choice([0.3, 0.6, 0.9, 0.999, 1.0, 1.0, rng.uniform(0.0004, 0.0025), rng.uniform(0.0004, 0.0025)])
+        vehicles.append({"id": vid, "lat": c[0], "lon": c[1], "mech": "leaf_50", "soc": soc})
     return {"name": "queue", "dt": dt, "start": 0, "end": dt * n_steps, "cancel": 600, "vehicles": vehicles, "requests": [],
             "stations": stations, "bases": bases, "focus": "queue"}
 
